@@ -17,6 +17,8 @@ var TypeForms = []string{
 	"{} // {allOf: \"%a\"}", "{ // {allOf: [\"%a\", \"%b\"]}\n  \"own\": 1\n}", "{} // {additionalProperties: \"%a\"}", "{ // {additionalProperties: \"%a\"}\n  %b: 1\n}",
 	"1", "\"kk\"", "{}", "[]", "null", "{\"a\": {\"b\": [%a]}}", "1 // {enum: @e}", "1 // {enum: %a}", "%a // {nullable: true}", "%a // {type: \"%b\"}", "%a // {or: [\"%b\"]}",
 	"{\"k\": %a | %b // {optional: true}\n}", "", " ", "# only a comment", "/^k+$/",
+	// empty containers that are "this or something else" (they can be referred to, inherited from, listed)
+	"{} // {or: [{type: \"object\"}, \"string\"]}", "{} // {or: [\"object\", \"%a\"]}", "[] // {or: [{type: \"array\"}, \"integer\"]}", "{} // {type: \"any\"}",
 }
 
 // GraphNames are the names the forms are filled with (one of them is never registered).
